@@ -198,6 +198,13 @@ def rule_wr_top(cx, rep, port):
         raise Undecided('TOP writer has no counter initialised to 0', init)
     # the refusal test
     tests = [n for n in g.nodes if n.kind == 'test' and ('self.' + counter) in _dotted_in(n.ast) and 'self.top_count' in _dotted_in(n.ast)]
+    is_wr0 = lambda n: n.kind in ('stmt', 'test') and cfgmod.node_contains(n, lambda x: isinstance(x, ast.Call) and call_name(x) == 'self.subwriter.write')  # noqa: E731
+    wrs0 = [n for n in g.nodes if is_wr0(n)]
+    dom0 = g.dominators()
+    guarding = [t_ for t_ in tests if wrs0 and all(g.dominates(t_, w_, dom0) for w_ in wrs0)]
+    if not guarding:
+        rep.violated(_key(c, 'write') + ' refusal', wrs0[0].ast if wrs0 else fd, 'the record is forwarded without first testing the emitted-record counter against the bound: TOP 0 (or a bound already reached) still emits a record')
+        return
     if len(tests) != 1:
         raise Undecided('TOP writer: refusal test comparing self.{} with self.top_count not found'.format(counter), fd)
     t = tests[0]
@@ -446,6 +453,30 @@ def rule_wr_sort(cx, rep, port):
             d = dotted(n.func) or ''
             if d == 'sorted' or d.endswith('.sort'):
                 sort_calls.append(n)
+    # every definition of the emitted sequence must be the recognised stable sort (plus the optional reversal): any other ordering
+    # primitive reaching the emission loop changes tie order
+    emit_loops = [n for n in walk_no_nested(fin) if isinstance(n, (ast.For, ast.While)) and any(isinstance(x, ast.Call) and call_name(x) == 'self.subwriter.write' for x in ast.walk(n))]
+    if len(emit_loops) == 1 and isinstance(emit_loops[0], ast.For):
+        seq = emit_loops[0].iter
+        if isinstance(seq, ast.Call) and dotted(seq.func) == 'range' and seq.args and isinstance(seq.args[-1], ast.Call) and dotted(seq.args[-1].func) == 'len':
+            seq = seq.args[-1].args[0]
+        if isinstance(seq, ast.Name):
+            defs = [n for n in walk_no_nested(fin) if isinstance(n, ast.Assign) and any(is_name(t_, seq.id) for t_ in n.targets)]
+            other = []
+            for d in defs:
+                v = d.value
+                dn = dotted(v.func) if isinstance(v, ast.Call) else None
+                if dn == 'sorted' or dotted(v) == 'self.unsorted_entries':
+                    continue
+                other.append(d)
+            if other:
+                dn = dotted(other[0].value.func) if isinstance(other[0].value, ast.Call) else node_text(other[0].value, 60)
+                rep.violated(_key(c, 'finish') + ' sort', other[0], 'the emitted sequence can also come from `{}`: an ordering primitive other than the stable sort (+ reversal) does not keep ties in input order / DESC as the exact reverse'.format(dn))
+                return
+    others = [n for n in walk_no_nested(fin) if isinstance(n, ast.Call) and (dotted(n.func) or '').split('.')[0] in ('heapq', 'bisect')]
+    if others:
+        rep.violated(_key(c, 'finish') + ' sort', others[0], '`{}` is used to order entries: it does not preserve the tie order required of ORDER BY'.format(dotted(others[0].func)))
+        return
     if len(sort_calls) != 1:
         rep.undecided(_key(c, 'finish') + ' sort', fin, 'expected exactly one sort call, found {}'.format(len(sort_calls)))
         return
